@@ -398,6 +398,24 @@ Fixpoint run_from (s : nstate) (ops : list op) : list obs :=
 Definition run (insync : bool) (ops : list op) : list obs := run_from (n_init insync) ops.
 
 (* ---------------------------------------------------------------------------------------- *)
+(* vocabulary of the theorems (props/C04.v) *)
+
+(* the registration discipline in isolation: any choice of registered transactions (a flag per tx),
+   AddMerkleProof immediately before the transaction's own AddHash, AddHash for every transaction *)
+Definition reg_step (st : res mtree) (tx : Z * bool) : res mtree :=
+  res_bind st (fun t => add_hash (if snd tx then add_merkle_proof t (fst tx) else t) (Leaf (fst tx))).
+Definition reg_loop (body : list (Z * bool)) : res mtree := fold_left reg_step body (Ok new_tree).
+Definition registered (body : list (Z * bool)) : list Z := map fst (filter (fun tx => snd tx = true) body).
+
+(* what the confirmation of transaction tx = (txid, is-new) of a block with txids ids under header
+   (hid, hroot) must look like: kind 1 new / 2 update, that header, unconfirmed depth 0, the index is the
+   transaction's position in the block, IsValid = nil *)
+Definition conf_ok (hid : Z) (hroot : mnode) (ids : list Z) (tx : Z * bool) (e : event) : Prop :=
+  exists cp, e = ETx (if snd tx then 1 else 2) (fst tx) (Some (cp, 0, 0)) /\
+             c_hdr cp = (hid, hroot) /\ 0 <= c_index cp /\ ids !! Z.to_nat (c_index cp) = Some (fst tx) /\
+             is_valid cp (fst tx) = 0.
+
+(* ---------------------------------------------------------------------------------------- *)
 (* Property monitor.  Reads the operations and the implementation's observations only; uses only the
    textbook reference (ref_root, ref_path) - never the streaming tree model or the IsValid model. *)
 
